@@ -42,6 +42,7 @@ M_ACTIONS = [
     ("states-drain-fails", [("states",)], None),
     ("states-never-read", [("states",)], None),  # M asks and never reads the answer: the server's drain() for M does not return
     ("well-formed-enq", [("enq", 3)], dict(deps=[], codes=(0,))),
+    ("enq-states-one-write", [("enq+states", 3)], dict(deps=[], codes=(0,))),
 ]
 
 
@@ -54,7 +55,7 @@ def scenario(mseq, cores=2):
     for label in mseq:
         _, ops, tdef = next(a for a in M_ACTIONS if a[0] == label)
         if tdef is not None:
-            if any(o[0] == "enq" and o[1] == 3 for o in mops):
+            if any(o[0] in ("enq", "enq+states") and o[1] == 3 for o in mops):
                 return None  # M defines at most one task of its own per scenario
             tasks[3] = dict(tdef)
             if tasks[3].pop("unstartable", False):
@@ -115,7 +116,7 @@ def run(ctx):
     ctx.pmap(me, "socket_batch", seqs, chunk=max(4, len(seqs) // 16))
     ctx.traces_validated = ctx.acc.extra["traces_validated"]
     ctx.notes.setdefault("coverage_extra", {})["real_socket_sequences"] = len(seqs)
-    ctx.rule = "scenario = sequence of M actions (26-action alphabet) next to fixed H and N scripts; all interleavings of client operations and process exits; non-trivial = distinct scenario"
+    ctx.rule = "scenario = sequence of M actions (27-action alphabet) next to fixed H and N scripts; all interleavings of client operations and process exits; non-trivial = distinct scenario"
     ctx.bound = dict(scenarios=len(scs), m_actions=len(M_ACTIONS), m_len=1 if quick else 2, deviations="1 for |M|<=1, 0 for |M|=2" if quick else "2 for |M|<=1, 1 for |M|=2", cores=2)
     ctx.assumptions = ["connections are asyncio.StreamReader objects fed by the explorer + recording writers (real sockets: real-socket tier)", "shutdown is an administrative request, not misbehaviour"]
 
